@@ -56,6 +56,12 @@ class VLoop(asyncio.SelectorEventLoop):
         finally:
             self.auto_advance = old
 
+    def stall(self, dt):
+        """the loop is busy for dt (a blocking step inside some callback): the clock moves on, no timer fires meanwhile; the timers
+        that became due fire LATE, all at the new time, in their due order"""
+        self._vtime += dt
+        self.settle()
+
     def next_timer(self):
         ts = [h._when for h in self._scheduled if not h._cancelled]
         return min(ts) if ts else None
@@ -182,6 +188,9 @@ class Sched:
 
     def advance(self, dt):
         self.loop.advance(dt)
+
+    def stall(self, dt):
+        self.loop.stall(dt)
 
     def status(self, name):
         """'pending' | 'ok:<repr>' | 'cancelled' | 'exc:<TypeName>'"""
